@@ -358,7 +358,20 @@ func (ex *Exec) loadAt(st *State, t types.Type, ref *Term) Val {
 		av := &ArrV{}
 		for _, l := range leaves(u.Elem()) {
 			n, s := elemComp(u.Elem(), l)
-			av.A = append(av.A, Select(ex.get(st, n, s), ref))
+			inner := Select(ex.get(st, n, s), ref)
+			if ref.op == "app" && strings.HasPrefix(ref.name, "aview$") && u.Len() <= 64 {
+				// a view at an offset: rebuild the array value element by element
+				src := Select(ex.get(st, n, s), ref.args[0])
+				_, isort := arrParts(s)
+				a := zeroOfSort(isort)
+				for i := int64(0); i < u.Len(); i++ {
+					a = Store(a, BVu(uint64(i), 64), Select(src, BVOp("bvadd", ref.args[1], BVu(uint64(i), 64))))
+				}
+				inner = a
+			} else if ref.op == "app" && strings.HasPrefix(ref.name, "aview$") {
+				ex.unsupported("large array view loaded as a value")
+			}
+			av.A = append(av.A, inner)
 		}
 		return av
 	}
